@@ -88,10 +88,9 @@ class ExprMixin:
                 vty = TRef(vty.cls)
             d = empty_dict(TDict(kty, vty))
         ke = self.to_elem(k, d.kty)
-        ve = self.to_elem(v, d.vty)
         has = self.dict_has(d, ke)
         keys = z3.If(has, d.keys, z3.Concat(d.keys, z3.Unit(ke)))
-        return VDict(d.kty, d.vty, keys, z3.Store(d.m, ke, ve), d.default)
+        return VDict(d.kty, d.vty, keys, dict_store(d, ke, v), d.default)
 
     def dict_has(self, d, ke):
         """key membership.  Dicts whose values are (non-null) object references keep the representation invariant
@@ -115,7 +114,7 @@ class ExprMixin:
 
     def dict_get(self, d, k):
         ke = self.to_elem(k, d.kty)
-        return elem_value(d.vty, z3.Select(d.m, ke)), self.dict_has(d, ke)
+        return dict_select(d, ke), self.dict_has(d, ke)
 
     # ------------------------------------------------------------------ eval
     def eval(self, e, st):
@@ -823,7 +822,7 @@ class ExprMixin:
                     k = elem_value(d.kty, d.keys[i])
                     if kind == "keys":
                         return k
-                    v = elem_value(d.vty, z3.Select(d.m, d.keys[i]))
+                    v = dict_select(d, d.keys[i])
                     if not self.in_spec:
                         self.assume_wf_read(s, v)
                     return v if kind == "values" else VTuple([k, v])
